@@ -372,7 +372,7 @@ func checkC12(c *Check, p *Program) {
 
 	// ---- inbound forwarder: func(<-chan cemi.Message, chan<- GroupEvent)
 	cemiMsg := p.Named("knx/cemi", "Message")
-	n := 0
+	n, nGo := 0, 0
 	cg := p.CallGraph()
 	for _, fn := range p.FuncsIn("knx") {
 		if fn.Parent() != nil || len(fn.Params) != 2 {
@@ -558,7 +558,30 @@ func checkC12(c *Check, p *Program) {
 				}
 			}
 			c.Decide(okSrc && mc != nil, "C12.in", FuncName(e.Caller)+" wires client.Inbound() to the event channel", p.InstrPos(g), "go forwarder(client.Inbound(), events)", "the forwarder is not fed from the client's Inbound() into the group client's channel")
+			// ... on every path on which the constructor succeeds
+			nGo++
+			ctor := e.Caller
+			assume := map[ssa.Value]bool{}
+			instrsOf(ctor, func(in ssa.Instruction) {
+				bo, ok := in.(*ssa.BinOp)
+				if !ok || (bo.Op != token.EQL && bo.Op != token.NEQ) {
+					return
+				}
+				for _, pr := range [][2]ssa.Value{{bo.X, bo.Y}, {bo.Y, bo.X}} {
+					if !isNilConst(pr[1]) {
+						continue
+					}
+					if ex, ok := unspill(pr[0]).(*ssa.Extract); ok {
+						if _, isCall := ex.Tuple.(*ssa.Call); isCall && types.Identical(ex.Type(), types.Universe.Lookup("error").Type()) {
+							assume[bo] = bo.Op == token.EQL
+						}
+					}
+				}
+			})
+			mn, mx := pathCountAssuming(ctor.Blocks[0], func(in ssa.Instruction) bool { return in == ssa.Instruction(g) }, nil, assume)
+			c.Decide(len(assume) >= 1 && mn == 1 && mx == 1, "C12.in", FuncName(ctor)+" starts the forwarder whenever the client was created", p.InstrPos(g), "one go statement on every path with err == nil", fmt.Sprintf("paths on which the underlying client was created start the forwarder %d..%d times: Inbound() of the group client never yields an event", mn, mx))
 		}
 	}
 	c.Floor("C12.in", "group forwarder functions", n, 1)
+	c.Floor("C12.in", "constructors that start the forwarder (group tunnel, group router)", nGo, 2)
 }
